@@ -174,7 +174,9 @@ theorem applyNext_casesJ (g : GoodChain c ch top) (hs : SafeJ jk c ch h0 evs n) 
       (Ev.dat (n.store.height + 1) ∈ evs ∨ (Ev.hdr (n.store.height + 1) ∈ evs ∧ IsEmpty b)) ∧
       n.store.height + 1 ∈ keysH n ∧ n.store.height + 1 ∈ keysD n ∧
       applyNext n .ok = some (advance n b.sh d, blockWrites n b.sh d, true)) ∨
-    (jk = true ∧ n.store.height + 1 ∈ keysH n ∧ applyNext n .ok = some (dropData n, [], false)) := by
+    (jk = true ∧ n.store.height + 1 ∈ keysH n ∧
+      (∃ d', getD n (n.store.height + 1) = some d' ∧ Junk ch (n.store.height + 1) d') ∧
+      applyNext n .ok = some (dropData n, [], false)) := by
   cases hH : getH n (n.store.height + 1) with
   | none => exact Or.inl ⟨applyNext_none (Or.inl hH), fun h => getH_none.mp hH h.1⟩
   | some sh =>
@@ -197,7 +199,7 @@ theorem applyNext_casesJ (g : GoodChain c ch top) (hs : SafeJ jk c ch h0 evs n) 
           exact ⟨b, d', hb, hgd, Or.inr ⟨hs.hdrSrc _ hkH, he⟩, hkH, hkD,
             applyNext_rebuild hH hD hbasic hmis hed (g.facts hb).height (valid_next g hs hb hgd)⟩
         · right
-          exact ⟨hj, hkH, applyNext_drop hH hD hbasic hmis he⟩
+          exact ⟨hj, hkH, ⟨d, rfl, hjunk⟩, applyNext_drop hH hD hbasic hmis he⟩
       · left
         rw [hb] at hb'; cases hb'
         exact ⟨b, d, hb, hgd, hsrc, hkH, hkD, applyNext_ok hH hD (valid_next g hs hb hgd) (g.facts hb).height⟩
@@ -262,6 +264,11 @@ inductive AppliedWrites (c : Cfg) (ch : PChain) : Nat → List SW → Nat → Pr
       AppliedWrites c ch (h + 1) ws h' →
       AppliedWrites c ch h (.saveBlock (h + 1) sb :: .updateState (stateAt c ch (h + 1)) :: .setHeight (h + 1) :: ws) h'
 
+theorem AppliedWrites.le {h h' : Nat} {ws : List SW} (a : AppliedWrites c ch h ws h') : h ≤ h' := by
+  induction a with
+  | nil => exact Nat.le_refl _
+  | cons _ _ _ ih => omega
+
 theorem trySync_acc : ∀ (fuel : Nat) (n : FNode) (ws : List SW),
     trySync fuel n ws = ((trySync fuel n []).1, ws ++ (trySync fuel n []).2) := by
   intro fuel
@@ -302,7 +309,7 @@ theorem trySync_safe (g : GoodChain c ch top) : ∀ (fuel : Nat) (n : FNode), Sa
   | zero => intro n hs; exact ⟨hs, .nil _⟩
   | succ f ih =>
     intro n hs
-    rcases applyNext_casesJ g hs with ⟨hn, _⟩ | ⟨b, d, hb, hd, hsrc, hkH, _, he⟩ | ⟨_, _, he⟩
+    rcases applyNext_casesJ g hs with ⟨hn, _⟩ | ⟨b, d, hb, hd, hsrc, hkH, _, he⟩ | ⟨_, _, _, he⟩
     · rw [trySync_step_none hn]; exact ⟨hs, .nil _⟩
     · rw [trySync_step_some he]
       have hs' := advance_safe g hs hb hd hkH hsrc
@@ -336,7 +343,7 @@ theorem trySync_quiet (g : GoodChain c ch top) : ∀ (fuel : Nat) (n : FNode), S
   | zero => intro n _ h; omega
   | succ f ih =>
     intro n hs hlen
-    rcases applyNext_casesJ g hs with ⟨hn, hq⟩ | ⟨b, d, hb, hd, hsrc, hkH, _, he⟩ | ⟨_, _, he⟩
+    rcases applyNext_casesJ g hs with ⟨hn, hq⟩ | ⟨b, d, hb, hd, hsrc, hkH, _, he⟩ | ⟨_, _, _, he⟩
     · rw [trySync_step_none hn]; exact hq
     · rw [trySync_step_some he]
       apply ih _ (advance_safe g hs hb hd hkH hsrc)
@@ -373,8 +380,6 @@ theorem onData_eq (n : FNode) (d : Data) : onData n d =
       if d.txs.isEmpty then (n, [])
       else if d.daCommitment ∈ n.seenD then (n, [])
       else if m.height ≤ n.store.height then (n, [])
-      else if (syncAfter (cacheD n m.height d)).1.alive then
-        (markD (syncAfter (cacheD n m.height d)).1 d.daCommitment, (syncAfter (cacheD n m.height d)).2)
       else syncAfter (cacheD n m.height d) := rfl
 
 
@@ -493,7 +498,7 @@ theorem onData_cases (g : GoodChain c ch top) (hs : SafeJ jk c ch h0 evs n) {k :
     (hne : ¬ IsEmpty b) :
     ((b.data.daCommitment ∈ n.seenD ∨ k ≤ n.store.height) ∧ onData n b.data = (n, [])) ∨
     (¬ (b.data.daCommitment ∈ n.seenD ∨ k ≤ n.store.height) ∧
-      onData n b.data = (markD (syncAfter (cacheD n k b.data)).1 b.data.daCommitment, (syncAfter (cacheD n k b.data)).2)) := by
+      onData n b.data = syncAfter (cacheD n k b.data)) := by
   obtain ⟨ht, m, hm, hmk⟩ := data_meta g hb hne
   rw [onData_eq, hs.alive, hm]
   simp only [Bool.not_true, Bool.false_eq_true, ↓reduceIte, ht, hmk]
@@ -502,7 +507,7 @@ theorem onData_cases (g : GoodChain c ch top) (hs : SafeJ jk c ch h0 evs n) {k :
   · rw [if_neg h1]
     by_cases h2 : k ≤ n.store.height
     · rw [if_pos h2]; exact Or.inl ⟨Or.inr h2, rfl⟩
-    · rw [if_neg h2, if_pos (syncAfter_safe g (cacheD_safe g hs hb)).1.alive]
+    · rw [if_neg h2]
       exact Or.inr ⟨by simp [h1, h2], rfl⟩
 
 /-- **every genuine event preserves the safety invariant**, and its writes apply consecutive blocks -/
@@ -534,8 +539,7 @@ theorem deliver_safe (g : GoodChain c ch top) (hs : SafeJ jk c ch h0 evs n) (e :
       · rcases onData_cases g hs hb he with ⟨_, e⟩ | ⟨_, e⟩
         · rw [e]; exact ⟨hs', .nil _⟩
         · rw [e]
-          obtain ⟨a1, a2⟩ := syncAfter_safe g (cacheD_safe g hs hb)
-          exact ⟨a1.seen _ _, a2⟩
+          exact syncAfter_safe g (cacheD_safe g hs hb)
 
 theorem syncAfter_quiet (g : GoodChain c ch top) (hs : SafeJ jk c ch h0 evs n) : Quiet (syncAfter n).1 :=
   trySync_quiet g _ n hs (Nat.lt_succ_self _)
@@ -591,9 +595,7 @@ theorem junk_safe (g : GoodChain c ch top) (hs : SafeJ true c ch h0 evs n) {d : 
       · exact ⟨hs, .nil _⟩
       · split
         · exact ⟨hs, .nil _⟩
-        · obtain ⟨a1, a2⟩ := syncAfter_safe g (cacheJ_safe hs (hj m hm))
-          rw [if_pos a1.alive]
-          exact ⟨a1.seen _ _, a2⟩
+        · exact syncAfter_safe g (cacheJ_safe hs (hj m hm))
 
 theorem junk_quiet (g : GoodChain c ch top) (hs : SafeJ true c ch h0 evs n) (hq : Quiet n) {d : Data}
     (hj : JunkData ch d) : Quiet (onData n d).1 := by
@@ -609,8 +611,152 @@ theorem junk_quiet (g : GoodChain c ch top) (hs : SafeJ true c ch h0 evs n) (hq 
       · exact hq
       · split
         · exact hq
-        · have a1 := (syncAfter_safe g (cacheJ_safe hs (hj m hm))).1
-          rw [if_pos a1.alive]
-          exact syncAfter_quiet g (cacheJ_safe hs (hj m hm))
+        · exact syncAfter_quiet g (cacheJ_safe hs (hj m hm))
+
+/-! ## the data seen-set names applied blocks only (/repo c3c43a6), so junk can never make genuine data "already seen" -/
+
+/-- every commitment in the data seen-set is the commitment of an **applied** non-empty block of the chain: the data
+case of the loop no longer marks what it merely caches (an unauthenticated item can copy the transactions of a block
+under wrong metadata), only `trySyncNextBlock` does when it applies a block -/
+def SeenApplied (ch : PChain) (n : FNode) : Prop :=
+  ∀ x, x ∈ n.seenD → ∃ k b, ch k = some b ∧ ¬ IsEmpty b ∧ x = b.data.daCommitment ∧ k ≤ n.store.height
+
+theorem SeenApplied.congr {n' : FNode} (h : SeenApplied ch n) (h1 : n'.seenD = n.seenD)
+    (h2 : n.store.height ≤ n'.store.height) : SeenApplied ch n' := by
+  intro x hx
+  rw [h1] at hx
+  obtain ⟨k, b, a1, a2, a3, a4⟩ := h x hx
+  exact ⟨k, b, a1, a2, a3, by omega⟩
+
+theorem advance_seen (g : GoodChain c ch top) (h : SeenApplied ch n) {b : Block} (d : Data)
+    (hb : ch (n.store.height + 1) = some b) : SeenApplied ch (advance n b.sh d) := by
+  intro x hx
+  rw [advance_height]
+  simp only [advance] at hx
+  split at hx
+  · obtain ⟨k, b', a1, a2, a3, a4⟩ := h x hx
+    exact ⟨k, b', a1, a2, a3, by omega⟩
+  · rename_i hne
+    simp only [List.mem_cons] at hx
+    rcases hx with rfl | hx
+    · exact ⟨_, b, hb, hne, ((g.facts hb).dataHash).symm, Nat.le_refl _⟩
+    · obtain ⟨k, b', a1, a2, a3, a4⟩ := h x hx
+      exact ⟨k, b', a1, a2, a3, by omega⟩
+
+theorem trySync_seen (g : GoodChain c ch top) : ∀ (fuel : Nat) (n : FNode), SafeJ jk c ch h0 evs n →
+    SeenApplied ch n → SeenApplied ch (trySync fuel n []).1 := by
+  intro fuel
+  induction fuel with
+  | zero => intro n _ h; exact h
+  | succ f ih =>
+    intro n hs h
+    rcases applyNext_casesJ g hs with ⟨hn, _⟩ | ⟨b, d, hb, hd, hsrc, hkH, _, he⟩ | ⟨_, _, _, he⟩
+    · rw [trySync_step_none hn]; exact h
+    · rw [trySync_step_some he]
+      exact ih _ (advance_safe g hs hb hd hkH hsrc) (advance_seen g h d hb)
+    · rw [trySync_step_stop he]; exact h.congr rfl (Nat.le_refl _)
+
+theorem cacheH_seenD (n : FNode) (sh : SHeader) : (cacheH n sh).seenD = n.seenD := by
+  unfold cacheH; simp only; split <;> rfl
+
+/-- every genuine event keeps the seen-set sound -/
+theorem deliver_seen (g : GoodChain c ch top) (hs : SafeJ jk c ch h0 evs n) (h : SeenApplied ch n) (e : Ev) :
+    SeenApplied ch (deliver ch n e).1 := by
+  cases e with
+  | hdr k =>
+    simp only [deliver]
+    cases hb : ch k with
+    | none => exact h
+    | some b =>
+      simp only
+      rcases onHeader_cases g hs hb with ⟨_, e⟩ | ⟨_, e⟩
+      · rw [e]; exact h
+      · rw [e]
+        have := trySync_seen g ((cacheH n b.sh).hdrCache.length + 1) _ (cacheH_safe g hs hb)
+          (h.congr (cacheH_seenD n b.sh) (by rw [cacheH_store]; exact Nat.le_refl _))
+        exact this.congr rfl (Nat.le_refl _)
+  | dat k =>
+    simp only [deliver]
+    cases hb : ch k with
+    | none => exact h
+    | some b =>
+      simp only
+      by_cases he : IsEmpty b
+      · rw [onData_empty g hb he]; exact h
+      · rcases onData_cases g hs hb he with ⟨_, e⟩ | ⟨_, e⟩
+        · rw [e]; exact h
+        · rw [e]
+          exact trySync_seen g _ _ (cacheD_safe g hs hb) (h.congr rfl (Nat.le_refl _))
+
+/-- … and so does every junk data event -/
+theorem junk_seen (g : GoodChain c ch top) (hs : SafeJ true c ch h0 evs n) (h : SeenApplied ch n) {d : Data}
+    (hj : JunkData ch d) : SeenApplied ch (onData n d).1 := by
+  rw [onData_eq, hs.alive]
+  simp only [Bool.not_true, Bool.false_eq_true, ↓reduceIte]
+  cases hm : d.metadata with
+  | none => exact h
+  | some m =>
+    simp only
+    split
+    · exact h
+    · split
+      · exact h
+      · split
+        · exact h
+        · exact trySync_seen g _ _ (cacheJ_safe hs (hj m hm)) (h.congr rfl (Nat.le_refl _))
+
+/-! ### a genuine data item, once cached, stays until its block is applied — whatever junk sits elsewhere -/
+
+theorem find_filter_ne {α : Type} (l : List (Nat × α)) {k j : Nat} (hkj : k ≠ j) :
+    (l.filter (·.1 ≠ j)).find? (·.1 = k) = l.find? (·.1 = k) := by
+  rw [List.find?_filter]
+  congr 1
+  funext a
+  by_cases h : a.1 = k
+  · have : a.1 ≠ j := fun e => hkj (h.symm.trans e)
+    simp [h, this, hkj]
+  · simp [h]
+
+theorem getD_advance_ne (n : FNode) (sh : SHeader) (d : Data) {k : Nat} (hk : k ≠ n.store.height + 1) :
+    getD (advance n sh d) k = getD n k := by
+  simp only [getD, advance]; rw [find_filter_ne _ hk]
+
+theorem getD_dropData_ne (n : FNode) {k : Nat} (hk : k ≠ n.store.height + 1) : getD (dropData n) k = getD n k := by
+  simp only [getD, dropData]; rw [find_filter_ne _ hk]
+
+theorem keysH_advance_ne (n : FNode) (sh : SHeader) (d : Data) {k : Nat} (hk : k ≠ n.store.height + 1)
+    (h : k ∈ keysH n) : k ∈ keysH (advance n sh d) := keys_filter_ne.mpr ⟨h, hk⟩
+
+/-- `trySync` keeps a cached genuine data item (and a cached header) of a height it does not reach -/
+theorem trySync_keeps (g : GoodChain c ch top) : ∀ (fuel : Nat) (n : FNode), SafeJ jk c ch h0 evs n →
+    ∀ (k : Nat) (b : Block) (d : Data), ch k = some b → GoodData b d → getD n k = some d → n.store.height < k →
+    n.store.height ≤ (trySync fuel n []).1.store.height ∧
+    (k ≤ (trySync fuel n []).1.store.height ∨
+      (getD (trySync fuel n []).1 k = some d ∧ (k ∈ keysH n → k ∈ keysH (trySync fuel n []).1))) := by
+  intro fuel
+  induction fuel with
+  | zero => intro n _ k b d _ _ hd _; exact ⟨Nat.le_refl _, Or.inr ⟨hd, id⟩⟩
+  | succ f ih =>
+    intro n hs k b d hb hg hd hlt
+    rcases applyNext_casesJ g hs with ⟨hn, _⟩ | ⟨b', d', hb', hd', hsrc, hkH, _, he⟩ | ⟨_, _, ⟨dj, hdj, hjunk⟩, he⟩
+    · rw [trySync_step_none hn]; exact ⟨Nat.le_refl _, Or.inr ⟨hd, id⟩⟩
+    · rw [trySync_step_some he]
+      dsimp only
+      have hh := advance_height n b'.sh d'
+      by_cases hk : k = n.store.height + 1
+      · have := (trySync_safe g f _ (advance_safe g hs hb' hd' hkH hsrc)).2.le
+        rw [hh] at this
+        exact ⟨by omega, Or.inl (by omega)⟩
+      · obtain ⟨i1, i2⟩ := ih _ (advance_safe g hs hb' hd' hkH hsrc) k b d hb hg
+          (by rw [getD_advance_ne n _ _ hk]; exact hd) (by rw [hh]; omega)
+        rw [hh] at i1
+        refine ⟨by omega, i2.imp id (fun ⟨x, y⟩ => ⟨x, fun hkk => y (keysH_advance_ne n _ _ hk hkk)⟩)⟩
+    · rw [trySync_step_stop he]
+      refine ⟨Nat.le_refl _, Or.inr ?_⟩
+      by_cases hk : k = n.store.height + 1
+      · subst hk
+        rw [hd] at hdj; cases hdj
+        exact absurd hjunk (not_junk_of_good hb hg)
+      · exact ⟨by rw [getD_dropData_ne n hk]; exact hd, fun hkk => hkk⟩
 
 end Sync
